@@ -557,6 +557,7 @@ func (req *Request) Process(store StorageClient, stat *Stats) (resp *Response, e
 		key := req.Keys[0]
 		add, err := strconv.Atoi(string(req.Item.Body))
 		if err != nil {
+			cmem.DBRL.SetData.SubCount(1) // counted in Read, never reaches the store
 			resp.Status = "CLIENT_ERROR"
 			resp.Msg = "invalid number"
 			break
